@@ -136,7 +136,10 @@ theorem batchEval_total (F : List α → List β) (f : α → β)
       · have : ¬ c < 1 := by omega
         simp [h0, this]
 
-/-- The likelihood-evaluation counter grows by exactly the batch size, once. -/
+/-- The likelihood-evaluation counter grows by exactly the batch size, once.
+DEFINITIONAL: the model's `batchEvalCount` returns the batch length by construction, so this restates the model; that the
+real `Model.batch_evaluate_log_likelihood` adds `len(x)` to `likelihood_evaluations` exactly once per call (all chunkings,
+pool or no pool) is established by the correspondence, which reads the real counter before and after every call. -/
 theorem counter_once (before : Nat) (xs : List α) :
     counterAfter before xs.length = before + xs.length := rfl
 
